@@ -11,10 +11,15 @@ open ZV
 set_option linter.unusedSectionVars false
 set_option linter.unusedVariables false
 set_option linter.unusedSimpArgs false
+set_option linter.unusedTactic false
+set_option linter.unreachableTactic false
 variable {F : Type} [Field F] [LinearOrder F] [IsStrictOrderedRing F] [Transc F]
 
 theorem nan_mul_eq_optMul (x y : Option F) : Nan.mul x y = optMul x y := by
   cases x <;> cases y <;> rfl
+
+theorem optMul_comm (x y : Option F) : optMul x y = optMul y x := by
+  cases x <;> cases y <;> simp [optMul, mul_comm]
 
 /-- one pass of the loop over the listed variables, as the model sees it: a variable that is kept (`q`) multiplies its
     predictions into the running products, a skipped one (`continue`) leaves them alone -/
@@ -60,14 +65,22 @@ theorem ipmw_monotone_weight_eq (l : List MRow) (k : Nat) (stab : Bool) (n d : N
     rw [hloop _ (by
       intro acc mv
       by_cases h0 : mv = 0 <;> cases hu : pairUniform l mv <;>
-        simp [stepSpec, h0, hu, nan_mul_eq_optMul])]
+        simp [stepSpec, h0, hu, nan_mul_eq_optMul] <;>
+        first
+          | done
+          | (constructor <;> first | rfl | exact optMul_comm _ _)
+          | exact optMul_comm _ _)]
     generalize chain (fitted l k) d r.i = pd
     cases ho : obsAt r (k - 1) <;> cases pd <;> simp [Nan.div, Nan.lift2]
   · simp only [Gen.ipmw_monotone_weight, ↓reduceIte]
     rw [hloop _ (by
       intro acc mv
       by_cases h0 : mv = 0 <;> cases hu : pairUniform l mv <;>
-        simp [stepSpec, h0, hu, nan_mul_eq_optMul])]
+        simp [stepSpec, h0, hu, nan_mul_eq_optMul] <;>
+        first
+          | done
+          | (constructor <;> first | rfl | exact optMul_comm _ _)
+          | exact optMul_comm _ _)]
     generalize chain (fitted l k) d r.i = pd
     generalize chain (fitted l k) n r.i = pn
     cases ho : obsAt r (k - 1) <;> cases pd <;> cases pn <;> simp [Nan.div, Nan.lift2]
